@@ -101,7 +101,6 @@ Proof.
       change (p_comb (mk_pos x b e)) with (a_comb x).
       destruct (replace_inner (a_comb x) [RClosure n_v body]) as [args|]; [|reflexivity].
       destruct (gen_def_and_step cfg ds' s (set_args (mk_pos x b e) args)) as [[ds'' s'']| |]; cbn [rbind fst snd]; try reflexivity.
-      cbn [close_with a_stk a_defs]. reflexivity.
   - (* Unwrap *)
     cbn [close_with a_stk a_defs render_nodes rbind fst snd].
     rewrite (wrap_last_top_irrelevant cfg ds s None w stk').
